@@ -104,6 +104,12 @@ func (s *script) probeRefused(k int, v2019 bool, bcd []byte) {
 	s.toks = append(s.toks, fmt.Sprintf("Q%d:%s", k, Hx(Frame808(0x0002, v2019, bcd, uint16(0xE000+k), nil))))
 }
 
+// probeSer: a probe with a serial of the caller's choice (a second probe on one connection needs its own serial: the
+// runner recognises the answer by the serial it echoes)
+func (s *script) probeSer(k int, v2019 bool, bcd []byte, ser uint16) {
+	s.toks = append(s.toks, fmt.Sprintf("P%d:%s", k, Hx(Frame808(0x0002, v2019, bcd, ser, nil))))
+}
+
 func (s *script) probe(k int, v2019 bool, bcd []byte) {
 	ser := uint16(0xE000 + k)
 	if s.kind == "808" {
@@ -523,7 +529,10 @@ func gen808(c *Ctx, pa string, budget time.Duration) {
 		bcd := nextPhone(v)
 		k1 := s.hostile()
 		s.O(k1)
-		s.D(k1, Frame808(0x0002, v, bcd, 1, nil))
+		// the first claimant's joining heartbeat is a PROBE: the runner waits for its answer, so the join has
+		// happened before the second connection exists (two connections are served by two goroutines: without the
+		// wait the second claimant could be processed first and would then rightly own the key)
+		s.probeSer(k1, v, bcd, uint16(0xD000+k1))
 		k2 := s.hostile()
 		s.O(k2)
 		s.D(k2, Frame808(0x0100, v, bcd, 2, make([]byte, 37)))
